@@ -30,8 +30,8 @@ def cause_is_nsimplify(text, stack):
     from vyxal.transpile import transpile
 
     try:
-        toks = tokenise(text)
-        code = transpile(text)
+        toks = [t for t in tokenise(text) if t.name.value == "number"]
+        code = "\n".join(ln for ln in transpile(text).split("\n") if ln.strip() != "pass")
         want = [f'stack.append(sympy.nsimplify("{"0.5" if t.value == "." else t.value}"))' for t in toks]
         if [ln for ln in code.split("\n") if ln.strip()] != want or len(stack) != len(toks):
             return False
@@ -40,7 +40,20 @@ def cause_is_nsimplify(text, stack):
         return False
 
 
-PLAIN = set("0123456789.")
+PLAIN = set("0123456789. ")           # digits, points and the space that separates literals
+VMARK, CMARK = "\x00V", "\x00C"       # case markers: lexed under flag V / run inside a context
+CONTEXTS = ["⟨□⟩", "λ□;†", "1[□]", "□w", "⟨⟨□⟩|⟨⟩⟩", "□→a ←a", "1(□)", "□:_"]
+
+
+def leaves(v, acc):
+    from vyxal.LazyList import LazyList
+
+    if isinstance(v, (list, LazyList)):
+        for x in v:
+            leaves(x, acc)
+    else:
+        acc.append(v)
+    return acc
 
 
 def observe(text):
@@ -48,16 +61,28 @@ def observe(text):
 
     from . import project
 
+    vflag = text.startswith(VMARK)
+    if vflag:
+        text = text[2:]
+    ctxi = -1
+    if text.startswith(CMARK):
+        ctxi, text = ord(text[2]) - 65, text[3:]
     try:
-        toks = project.toks(tokenise(text))
+        toks = project.toks(tokenise(text, True) if vflag else tokenise(text))
     except Exception as e:  # noqa: BLE001
         toks = [{"k": "lexer-raised:" + type(e).__name__, "v": []}]
-    if not set(text) <= PLAIN:
+    if vflag or not set(text) <= PLAIN:
         # a literal directly followed by something else: only the scanning is observed (nothing is run)
-        return {"a": cps(text), "vals": [], "err": "", "toks": toks, "lexonly": True}
+        return {"a": cps(text), "vals": [], "err": "", "toks": toks, "lexonly": True, "vflag": vflag}
+    if ctxi >= 0:
+        # the literal inside a structure / behind an element that wraps or copies it: every leaf of what is
+        # left on the stack is the literal's value
+        stack, ctx, err = runner.exec_text(CONTEXTS[ctxi].replace("□", text))
+        vals = [runner.num_json(v) for v in leaves(stack or [], [])]
+        return {"a": cps(text), "vals": vals, "err": err or "", "lexonly": False, "vflag": False}
     stack, ctx, err = runner.exec_text(text)
     vals = [runner.num_json(v) for v in (stack or [])]
-    return {"a": cps(text), "vals": vals, "err": err or "", "toks": toks, "lexonly": False}
+    return {"a": cps(text), "vals": vals, "err": err or "", "toks": toks, "lexonly": False, "vflag": False}
 
 
 def cases(tier, rng):
@@ -81,6 +106,36 @@ def cases(tier, rng):
     out += ["0.1", "0.30", "1.50", ".5", "5.", ".", "0", "00", "0.0.0", "1..2", "3.14159265358979323846",
             "0.000000000000000001", "123456789012345678901234567890", "0.3333333333333333", "2.675", "1.005",
             "9007199254740993", "0.1234567890123456789", "4.35", "1.1", "100.001", "0.7071067811865476"]
+    # several literals in one program (scanner state must not leak from one literal to the next): run
+    lits = ["1.5", "2.5", "0.5", ".5", "5.", "10", "0", "7", "1.25", "3.", "00", "0.0", "12.75", ".", "1..2", "9.5.5"]
+    for a in lits:
+        for b in lits:
+            out.append(a + " " + b)
+            out.append(a + " " + b + " " + a)
+    for _ in range(300 if tier == "quick" else 6000):
+        out.append(" ".join(rng.choice(lits + [str(rng.randint(0, 999)), "%d.%d" % (rng.randint(0, 99), rng.randint(0, 999))])
+                            for _ in range(rng.randint(2, 5))))
+    # ... and separated by elements / structure characters: scanning only
+    for a in lits[:8]:
+        for b in lits[:8]:
+            for sep in ("+", "|", "\n", ",", "⟨", "`x`", "→a", "#c\n"):
+                out.append(a + sep + b)
+    # literals inside structures and behind wrapping / copying elements (values pass through list building,
+    # lambdas, variables): the same exact value must arrive
+    sample = [t for t in out if set(t) <= set("0123456789.") and t.count(".") <= 1 and t not in (".", "")
+              and not (len(t) > 1 and t[0] == "0" and t[1] != ".")]           # exactly one literal
+    step = max(1, len(sample) // (2500 if tier == "quick" else 60000))
+    for i, t in enumerate(sample[::step]):
+        out.append(CMARK + chr(65 + i % len(CONTEXTS)) + t)
+    for t in ["9007199254740993.5", "18014398509481985.25", "123456789012345678.5", "4503599627370497.5", "0.1", "2.5",
+              "36028797018963969.75", "99999999999999999999.5", "1.000000000000000001"]:
+        for ci in range(len(CONTEXTS)):
+            out.append(CMARK + chr(65 + ci) + t)
+    # flag V (one-character variable names): a literal right after a variable access is still a literal
+    for lit in ["5", "31", "2.5", "0", ".5", "12"]:
+        for pre in ("→", "←", "→x", "←x", "7 →", "→_", "→xy", "1→a"):
+            out.append(VMARK + pre + lit)
+            out.append(VMARK + pre + lit + " " + lit)
     # a literal directly followed (and preceded) by every character of the code page: where the number ends
     from vyxal.encoding import codepage
     for lit in ["7", "12", "2.5", "0", "0.5", "5.", ".5", "10", "007", "1.", "90", "3.25"]:
@@ -112,11 +167,21 @@ def main(tier):
         tally[v] = tally.get(v, 0) + 1
         head = v.split(":")[0]
         if head == "violation":
-            stack, _, err = runner.exec_text(text)
-            if v in ("violation:type", "violation:value") and not err and cause_is_nsimplify(text, stack):
-                V.add(NSIMPLIFY_SIG, {"literal": text, "verdict": v})
+            # (only texts of digits and points are ever run; a literal next to an arbitrary element is not)
+            # the literal text itself, without the case markers (flag V / context)
+            bare = text[2:] if text.startswith(VMARK) else text[3:] if text.startswith(CMARK) else text
+            shown = text.replace(VMARK, "[flag V] ").replace(CMARK, "[in context] ")
+            stack, _, err = runner.exec_text(bare) if set(bare) <= PLAIN else (None, None, "not-run")
+            same = True
+            if text.startswith(CMARK) and not err:
+                # in a context the cause is the known one only if what arrived IS the bare literal's value
+                cst, _, cerr = runner.exec_text(CONTEXTS[ord(text[2]) - 65].replace("□", bare))
+                got = leaves(cst or [], [])
+                same = not cerr and len(got) >= 1 and all(g == stack[0] for g in got)
+            if v in ("violation:type", "violation:value") and not err and same and cause_is_nsimplify(bare, stack):
+                V.add(NSIMPLIFY_SIG, {"literal": shown, "verdict": v})
             else:
-                V.add(f"literal:{text}", {"literal": text, "verdict": v})
+                V.add(f"literal:{shown}", {"literal": shown, "verdict": v})
         if head in ("ok", "violation"):
             nontriv += 1
     rc = V.finish()
